@@ -366,6 +366,12 @@ def arith(o, op, a, b):
     """i32 `a op b` with the interpreter's failure conditions; o = Oracle"""
     if op == "+" and isinstance(a, tuple) and isinstance(b, tuple) and a[0] == "str" and b[0] == "str":
         return ("str", a[1] + b[1])          # concatenation of concrete strings
+    if any(isinstance(x, tuple) and x[0] == "big" for x in (a, b)):
+        # concrete bigint arithmetic (int yields to bigint); anything symbolic is outside
+        va, vb = (x[1] if isinstance(x, tuple) else x for x in (a, b))
+        if all(isinstance(v, int) and not isinstance(v, bool) for v in (va, vb)) and op in "+-*":
+            return ("big", {"+": va + vb, "-": va - vb, "*": va * vb}[op])
+        raise Unsupported("bigint arithmetic on %r %s %r" % (a, op, b))
     if not (is_int(a) and is_int(b)):
         if any(is_bool(x) or isinstance(x, (Fn, Obj)) for x in (a, b)) or (op in "-/%" and any(isinstance(x, tuple) and x[0] == "str" for x in (a, b))):
             raise Fail("type", "`%s` is not defined on these operand kinds" % op)       # no operator impl accepts them (C02's program family)
